@@ -27,6 +27,82 @@ class UnitError(Exception):
     that no longer applies, malformed unit file."""
 
 
+def split_or_arms(text):
+    """R15: a match arm `P1 | P2 | … => { body }` whose pattern binds by `ref mut` becomes one arm per
+    alternative, each with the same body.  Returns (new_text, number_of_arms_split)."""
+    msk = rustscan.mask(text)
+    out = []
+    last = 0
+    n = 0
+    for m in re.finditer(r'=>\s*\{', msk):
+        arrow = m.start()
+        bo = m.end() - 1
+        try:
+            be = rustscan.match_close(msk, bo)
+        except ScanError:
+            continue
+        # scan backwards for the start of the pattern
+        depth = 0
+        j = arrow - 1
+        start = None
+        while j >= 0:
+            ch = msk[j]
+            if ch in ')}]':
+                if ch == '}' and depth == 0:
+                    start = j + 1
+                    break
+                depth += 1
+            elif ch in '({[':
+                if depth == 0:
+                    start = j + 1
+                    break
+                depth -= 1
+            elif ch == ',' and depth == 0:
+                start = j + 1
+                break
+            j -= 1
+        if start is None or start < last:
+            continue
+        pat = text[start:arrow]
+        pm = msk[start:arrow]
+        if 'ref mut' not in pm:
+            continue
+        # split on top-level '|'
+        alts = []
+        d = 0
+        a0 = 0
+        for k, ch in enumerate(pm):
+            if ch in '({[':
+                d += 1
+            elif ch in ')}]':
+                d -= 1
+            elif ch == '|' and d == 0:
+                alts.append(pat[a0:k])
+                a0 = k + 1
+        alts.append(pat[a0:])
+        alts = [a for a in alts if a.strip()]
+        if len(alts) < 2:
+            continue
+        body = text[bo:be + 1]
+        lead = re.match(r'\s*', pat).group(0)
+        indent = lead.split('\n')[-1]
+        # comments inside the pattern stay with the first alternative
+        pieces = []
+        for ai, alt in enumerate(alts):
+            a = alt.strip('\n')
+            a = a.rstrip()
+            if ai == 0:
+                pieces.append(lead + a.lstrip() + ' => ' + body)
+            else:
+                pieces.append('\n' + indent + a.strip() + ' => ' + body)
+        out.append(text[last:start])
+        out.append(''.join(pieces))
+        last = be + 1
+        n += 1
+    out.append(text[last:])
+    return ''.join(out), n
+
+
 class Line:
     __slots__ = ('text', 'kind', 'tags', 'kf', 'label', 'item', 'src', 'flags')
 
@@ -57,6 +133,7 @@ class Item:
         self.changed = False        # real text differs from stored copy
         self.rules = []
         self.keep_vis = False
+        self.named_rules = []
 
 
 def _parse_marker(line):
@@ -146,6 +223,8 @@ class Unit:
                 cur.name = s.split(None, 1)[1]
             elif s == '//@keep-vis':
                 cur.keep_vis = True
+            elif s.startswith('//@rule '):
+                cur.named_rules.append(s.split()[1])
             else:
                 pm = _parse_marker(line)
                 if pm:
@@ -220,9 +299,18 @@ class Unit:
     # ------------------------------------------------------------------ lower
     def _lower(self, it, text, body_open):
         """Returns list of (line_text, src_line_offset, flags)."""
+        orig_lines = text.split('\n')
+        rules = []
+        if 'R15' in it.named_rules:
+            text2, n15 = split_or_arms(text)
+            if n15 == 0:
+                raise UnitError('%s: rule R15 no longer applies in %s' % (self.name, it.path_text))
+            rules.append('R15x%d' % n15)
+            if body_open is not None:
+                body_open = body_open   # the fn signature precedes every match arm: offset unchanged
+            text = text2
         msk = rustscan.mask(text)
         edits = []   # (pos, kind)
-        rules = []
         # R16: body-opening braces of the fn and of loops go on their own line
         is_fn = it.kind == 'item' and rustscan.parse_path(it.path_text)[-1][0] == 'fn'
         if not is_fn:
@@ -291,6 +379,28 @@ class Unit:
                 res.append((part, off, flags))
         while res and not res[-1][0].strip():
             res.pop()
+        if 'R15' in it.named_rules:
+            # duplicated arms: recover source line offsets by matching line text
+            norm = [l.strip() for l in orig_lines]
+            p = 0
+            fixed = []
+            for (t, off, fl) in res:
+                tt = t.strip()
+                k = None
+                if tt:
+                    for q in range(p, len(norm)):
+                        if norm[q] == tt:
+                            k = q
+                            break
+                    if k is None:
+                        for q in range(0, p):
+                            if norm[q] == tt:
+                                k = q
+                                break
+                if k is not None and k >= p:
+                    p = k
+                fixed.append((t, k if k is not None else p, fl))
+            res = fixed
         return res
 
     # ------------------------------------------------------------------ weave
